@@ -4,7 +4,9 @@
  * usage: mpmc <pool nodes> <scan every k-th successful pop (0 = never)> <script>
  * ops: p<v> = push(v) (skipped with `note skip push` when no free node is available),
  *      o    = trypop,
- *      g    = explicit hazard_pointer_scan on the thread's own record.
+ *      g    = explicit hazard_pointer_scan on the thread's own record,
+ *      J    = (first op of a thread only) the thread creates and publishes its hazard record
+ *             when it starts running instead of before the run.
  *
  * Node pool with a reuse-FIRST policy: the gc callback pushes the reclaimed node on a
  * LIFO free list and the very next push takes its node from there, so a node address
@@ -14,8 +16,25 @@
  * Registered cells: head, tail, every node's value/prev/next, every record's two hazard
  * slots.  The scan's private state (retired list, plist) is NOT registered: reclamation
  * shows up in the log only as `note reclaim @n`. */
+#include <malloc.h>
+#include <stdint.h>
+#include <stdlib.h>
+
 #include "common.h"
+/* record allocation interposed (`calloc` is a macro while the real file is compiled into this
+ * unit) so that a record's `next` link and hazard slots are registered cells BEFORE
+ * create_and_push publishes the record: a thread that joins late (op J) races its
+ * registration with the scans and pops of the others */
+static __thread int cur_thread;
+static void vh_register_record(void* p);
+static void* vh_calloc(size_t n, size_t sz) {
+  void* p = calloc(n, sz);
+  vh_register_record(p);
+  return p;
+}
+#define calloc(n, sz) vh_calloc((n), (sz))
 #include "hazard_pointer.c"
+#undef calloc
 #include "mpmc_fifo.h"
 
 #define MAXNODES 16
@@ -51,8 +70,22 @@ static void node_gc(void* gc_data, hazard_node_t* hn) {
   freelist[nfree++] = n;
 }
 
+static void vh_register_record(void* p) {
+  hazard_pointer_thread_record_t* r = p;
+  int t = cur_thread;
+  vr_reg(&r->next, sizeof r->next, "recnext%d", t);
+  for (int k = 0; k < MPMC_HAZARD_COUNT; k++) vr_reg(&r->hazard_pointers[k], 8, "hp%d_%d", t, k);
+}
+
+static void join_thread(int t) {
+  cur_thread = t;
+  rec[t] = hazard_pointer_thread_record_create_and_push(&hp_head, MPMC_HAZARD_COUNT);
+}
+
 static void do_op(int t, const char* op) {
+  if (!rec[t]) join_thread(t); /* late joiner: its first op (J or anything else) registers it */
   hazard_pointer_thread_record_t* h = rec[t];
+  if (op[0] == 'J') return;
   if (op[0] == 'p') {
     long v = atol(op + 1);
     if (nfree == 0) {
@@ -92,11 +125,11 @@ int main(int argc, char** argv) {
     pool[i].hazard.gc_function = node_gc;
     vr_obj(&pool[i], sizeof(pool[i]), "n%d", i);
   }
-  /* one hazard record per script thread, K = MPMC_HAZARD_COUNT, created up front */
-  for (int t = 0; t < vh_script.nthreads; t++) {
-    rec[t] = hazard_pointer_thread_record_create_and_push(&hp_head, MPMC_HAZARD_COUNT);
-    for (int k = 0; k < MPMC_HAZARD_COUNT; k++) vr_reg(&rec[t]->hazard_pointers[k], 8, "hp%d_%d", t, k);
-  }
+  /* one hazard record per script thread, K = MPMC_HAZARD_COUNT; created up front unless the
+   * thread's script starts with J (then it registers itself when it starts running) */
+  vr_reg(&hp_head, sizeof hp_head, "hphead");
+  for (int t = 0; t < vh_script.nthreads; t++)
+    if (vh_script.nops[t] == 0 || vh_script.ops[t][0][0] != 'J') join_thread(t);
   /* the dummy node handed to init is, in the library's own use (fiber_semaphore_init takes it
    * from the manager's node pool), a RECYCLED node: it still carries the links and value of
    * its previous life.  init must not rely on it being clean. */
@@ -123,6 +156,7 @@ int main(int argc, char** argv) {
   /* drain single-threaded so the monitor can tell a lost item from a queued one */
   for (;;) {
     vr_note("call pop");
+    if (!rec[0]) join_thread(0);
     void* r = mpmc_fifo_trypop(rec[0], &fifo);
     vr_note("ret pop %ld", (long)r);
     if (!r) break;
